@@ -213,7 +213,9 @@ def context_job(indices: list[int], opsets: list[int]) -> list[dict[str, Any]]:
                 st, why = classify_ort_load(m)
                 pr["ort"], pr["ort_why"] = st, why
                 pr["mismatch"] = []
-                if st == "ok" and not tp.get("skip_numeric_validation"):
+                # skip_numeric_validation marks RNG-driven testcases -- and a few deterministic ones the project's
+                # own runtime could not execute; only the random ones have no reference value
+                if st == "ok" and not (tp.get("skip_numeric_validation") and str(tp.get("component", "")).startswith("random")):
                     for a, r in zip(steer, refs):
                         if r is None or any(v.dtype.kind in "fc" and not np.all(np.isfinite(v)) for v in r):
                             continue
